@@ -122,6 +122,12 @@ class _P:
                 r = self.alt()
                 self.eat(")")
                 return ("pla", r)
+            if self.t.startswith("?<=", self.i) or self.t.startswith("?<!", self.i):
+                kind = "plb" if self.t[self.i + 2] == "=" else "nlb"
+                self.i += 3
+                r = self.alt()
+                self.eat(")")
+                return (kind, r)
             if self.peek() == "?":
                 raise Unsupported("group extension (?%s" % self.t[self.i + 1 : self.i + 3])
             self.ngroups += 1
@@ -219,7 +225,7 @@ def has_la(n):
     k = n[0]
     if k in ("lit", "cls", "bref", "str", "set"):
         return False
-    if k in ("nla", "pla", "prep"):
+    if k in ("nla", "pla", "prep", "plb", "nlb"):
         return True
     if k in ("cat", "alt"):
         return any(has_la(x) for x in n[1])
@@ -242,7 +248,7 @@ def has_bref(n):
         return False
     if k in ("cat", "alt"):
         return any(has_bref(x) for x in n[1])
-    if k in ("grp", "nla", "pla", "rep", "prep"):
+    if k in ("grp", "nla", "pla", "rep", "prep", "plb", "nlb"):
         return has_bref(n[1])
     if k in ("cap", "capval"):
         return has_bref(n[2])
@@ -264,11 +270,29 @@ def expand_brefs(n, g):
         return n
     if k in ("cat", "alt"):
         return (k, [expand_brefs(x, g) for x in n[1]])
-    if k in ("grp", "nla", "pla"):
+    if k in ("grp", "nla", "pla", "plb", "nlb"):
         return (k, expand_brefs(n[1], g))
     if k in ("rep", "prep"):
         return (k, expand_brefs(n[1], g), n[2], n[3])
     raise Unsupported(k)
+
+
+def split_leading_lookbehind(n):
+    """R = (look-behinds at the very start) R'  ->  ([('plb'|'nlb', X), ...], R').  A look-behind anywhere else is
+    rejected by the translator (Unsupported)."""
+    top = n
+    while top[0] == "grp":
+        top = top[1]
+    if top[0] in ("plb", "nlb"):
+        return [top], ("cat", [])
+    if top[0] != "cat":
+        return [], n
+    lbs, items = [], list(top[1])
+    while items and items[0][0] in ("plb", "nlb"):
+        lbs.append(items.pop(0))
+    if not lbs:
+        return [], n
+    return lbs, ("cat", items)
 
 
 # ------------------------------------------------------------------ z3 side
@@ -431,6 +455,8 @@ class Tr:
             return inter(K, comp(self.lang(n[1], self.w.ANY, lacols, lacols, None)))
         if k == "pla":
             return inter(K, self.lang(n[1], self.w.ANY, lacols, lacols, None))
+        if k in ("plb", "nlb"):
+            raise Unsupported("look-behind that is not at the very start of the regex")
         if k == "cat":
             r = K
             for x in reversed(n[1]):
@@ -475,6 +501,29 @@ class Tr:
 
 
 # ------------------------------------------------------------------ queries
+def lang_at_start(tr, astn, K, cols, lacols, grpcols=None):
+    """language of matches starting at offset 0 OF THE WHOLE STRING (empty left context): leading look-behinds are
+    decided against the empty prefix."""
+    lbs, rest = split_leading_lookbehind(astn)
+    for kind, x in lbs:
+        eps_ok = str(z3.simplify(z3.InRe(z3.StringVal(""), tr.plain(x, tr.w.colours)))) == "True" if not has_la(x) else False
+        if (kind == "plb" and not eps_ok) or (kind == "nlb" and eps_ok):
+            return EMPTY
+    return tr.lang(rest, K, cols, lacols, grpcols)
+
+
+def left_context(tr, astn):
+    """(language of prefixes after which the leading look-behinds hold, regex without them)"""
+    lbs, rest = split_leading_lookbehind(astn)
+    ctx = tr.w.ANY
+    for kind, x in lbs:
+        if has_la(x):
+            raise Unsupported("look-ahead inside a look-behind")
+        ends = z3.Concat(tr.w.ANY, tr.plain(x, tr.w.colours))
+        ctx = inter(ctx, ends if kind == "plb" else comp(ends))
+    return ctx, rest
+
+
 class Q:
     """One solver, one free string; every query is a single membership constraint."""
 
